@@ -75,8 +75,11 @@ class MetadataManager:
             TableExistsError: If the table already has metadata.
         """
         with self._lock:
-            self.lock_provider.acquire()
+            # acquire() sits INSIDE the try: an asynchronous KeyboardInterrupt /
+            # SystemExit delivered right after the lock was taken must still reach
+            # the release below (release() is a no-op when nothing is held).
             try:
+                self.lock_provider.acquire()
                 # Refuse to clobber an existing table. This covers both a valid
                 # hint AND hint-less tables recovered by scanning metadata files,
                 # so a lost/corrupt hint can never lead to destructive re-init.
@@ -153,10 +156,14 @@ class MetadataManager:
         """
         # Acquire thread lock for thread safety within same process
         with self._lock:
-            # PHASE 2: Acquire distributed lock for multi-process safety
-            self.lock_provider.acquire()
-
             try:
+                # PHASE 2: Acquire distributed lock for multi-process safety.
+                # Inside the try: an asynchronous KeyboardInterrupt / SystemExit
+                # delivered right after the lock was taken (before the try was
+                # entered) skipped the release, and a process that survives the
+                # interrupt kept the table unwritable for everybody.
+                self.lock_provider.acquire()
+
                 # PHASE 1: Validation (inside lock to prevent races)
                 #
                 # On CAS backends the hint is read ONCE, together with its ETag,
@@ -423,6 +430,15 @@ class MetadataManager:
             self.lock_provider.release()
         except Exception as e:
             logger.warning(f"Failed to release metadata lock (will self-heal by lease expiry): {e}")
+        except BaseException:
+            # Asynchronous interrupt INSIDE release(): finish the job before it
+            # propagates - a process that survives the interrupt would otherwise
+            # keep the table locked for as long as it lives.
+            try:
+                self.lock_provider.release()
+            except BaseException:
+                pass
+            raise
 
     @staticmethod
     def _new_metadata_filename(version: int) -> str:
